@@ -96,6 +96,27 @@ theorem C03_letter_decode_eq (alph : List Nat) (hlen : alph.length ≤ 256) (cs 
       cases alph[c.toNat]? <;> rfl
     · exfalso; omega
 
+/-- The same for an array that is `uint8` already (no pre-cast check is made, none is needed):
+every `uint8` code array decodes like the generic alphabet, for alphabets of at most 256 letters. -/
+theorem C03_letter_decode_eq_u8 (alph : List Nat) (hlen : alph.length ≤ 256) (cs : List Int)
+    (hu8 : ∀ c ∈ cs, 0 ≤ c ∧ c < 256) :
+    letterDecodeMultiple alph true cs = decode alph cs := by
+  unfold letterDecodeMultiple
+  simp only [Bool.not_true, Bool.false_and, Bool.false_eq_true, if_false]
+  unfold decodeToChars decode
+  rw [mapE_map]
+  refine mapE_congr _ _ _ fun c hc => ?_
+  obtain ⟨h0, h1⟩ := hu8 c hc
+  have hm : (c % 256).toNat = c.toNat := by omega
+  by_cases hv : (alph.length : Int) ≤ c
+  · have hl : alph.length ≤ c.toNat := by omega
+    simp only [hm, hl, if_true, decode1]
+    simp [hv]
+  · have hl : ¬ alph.length ≤ c.toNat := by omega
+    have hv' : ¬ (c < 0 ∨ (alph.length : Int) ≤ c) := by omega
+    simp only [hm, hl, if_false, decode1, hv']
+    cases alph[c.toNat]? <;> rfl
+
 /-! ## Sequence objects behave like their symbol strings -/
 
 section SeqLaws
@@ -196,6 +217,26 @@ theorem C03_seq_assign_slice_rejects (s : Seq α) (a b : Option Int) (syms : Lis
       syms.length ≠ (sliceBounds s.codes.length a b).2 - (sliceBounds s.codes.length a b).1 →
       syms.length ≠ 1 → s.setSlice a b syms = .error .valueError) :=
   setSlice_rejects s a b syms
+
+/-- `a + b` for *different* alphabets: if one alphabet extends the other the strings are concatenated
+and the result carries the longer alphabet and the class of the operand that owns it; if neither
+extends the other the call is a `ValueError`. -/
+theorem C03_seq_add_extends (a b : Seq α) (x y : List α) (ha : a.symbols = .ok x) (hb : b.symbols = .ok y) :
+    (extends_ a.alph b.alph = true →
+      ∃ c, a.add b = .ok c ∧ c.symbols = .ok (x ++ y) ∧ c.alph = a.alph ∧ c.kind = a.kind) ∧
+    (extends_ a.alph b.alph = false → extends_ b.alph a.alph = true →
+      ∃ c, a.add b = .ok c ∧ c.symbols = .ok (x ++ y) ∧ c.alph = b.alph ∧ c.kind = b.kind) ∧
+    (extends_ a.alph b.alph = false → extends_ b.alph a.alph = false → a.add b = .error .valueError) :=
+  add_spec a b x y ha hb
+
+/-- Slice assignment of ONE symbol to a slice of another width: numpy broadcasts it over the slice. -/
+theorem C03_seq_assign_slice_broadcast (s : Seq α) (x : List α) (h : s.symbols = .ok x) (a b : Option Int) (y : α)
+    (hy : y ∈ s.alph) (hw : (sliceBounds x.length a b).2 - (sliceBounds x.length a b).1 ≠ 1) :
+    ∃ s', s.setSlice a b [y] = .ok s' ∧
+      s'.symbols = .ok (x.take (sliceBounds x.length a b).1 ++
+        List.replicate ((sliceBounds x.length a b).2 - (sliceBounds x.length a b).1) y ++
+        x.drop (sliceBounds x.length a b).2) :=
+  setSlice_broadcast s x h a b y hy hw
 
 /-- `sequence.symbols = value` sets the string to `value`; a symbol outside the alphabet is refused
 with `AlphabetError` (and, the model being a value, the sequence is what it was). -/
@@ -357,12 +398,17 @@ divisible by 3, and then the protein is the list of table entries of the consecu
 theorem C03_translate_codonwise (t : CodonTable) (code : List Nat) :
     (code.length % 3 ≠ 0 → translateComplete t code = .error .valueError) ∧
     (code.length % 3 = 0 → translateComplete t code = mapE (lookupCodon t) (chunk3 code)) ∧
-    (∀ a b c, a < 4 → b < 4 → c < 4 → 64 ≤ t.codons.length →
+    (∀ a b c, a < 4 → b < 4 → c < 4 → 64 = t.codons.length →
       ∃ aa, t.codons[16 * a + 4 * b + c]? = some aa ∧ lookupCodon t [a, b, c] = .ok aa) := by
   refine ⟨fun h => by simp [translateComplete, h], fun h => by simp [translateComplete, h, mapCodonCodes], ?_⟩
   intro a b c ha hb hc hlen
   have hlt : 16 * a + 4 * b + c < t.codons.length := by omega
-  exact ⟨t.codons[16 * a + 4 * b + c], by simp [hlt], by simp [lookupCodon, codonNumber, hlt]⟩
+  obtain ⟨aa, haa⟩ := lookupCodon_ok t (by omega) a b c ha hb hc
+  refine ⟨t.codons[16 * a + 4 * b + c], by simp [hlt], ?_⟩
+  have hany : [a, b, c].any (fun d => decide (4 ≤ d)) = false := by
+    simp only [List.any_cons, List.any_nil, Bool.or_false, Bool.or_eq_false_iff, decide_eq_false_iff_not]
+    omega
+  simp [lookupCodon, hany, codonNumber, hlt]
 
 /-- `CodonTable(codon_dict, starts)` (any dict with distinct codon keys, as a Python dict has):
 the table has 64 entries and looking up the *encoded* codon of any dict item returns the
@@ -385,6 +431,22 @@ theorem C03_translate_lookup (nuc prot : List Nat) (hnd : nuc.Nodup) (hn4 : nuc.
     ∃ code aas, encodeChars nuc (items.flatMap (·.1)) = .ok code ∧
       mapE (encode1 prot) (items.map (·.2)) = .ok aas ∧ translateComplete t code = .ok aas :=
   translate_eq_dict nuc prot hnd hn4 dict hk starts t h items hsub
+
+/-- A nucleotide code outside `0..3` (the code setter accepts any value of the dtype) is refused by
+translation instead of being folded into another codon (repaired code): complete translation of a
+sequence whose length is a multiple of 3 is an `AlphabetError` exactly when some codon contains such
+a code. -/
+theorem C03_translate_rejects_invalid_code (t : CodonTable) (ht : t.codons.length = 64) (code : List Nat)
+    (hl : code.length % 3 = 0) :
+    translateComplete t code = .error .alphabetError ↔ ∃ x ∈ chunk3 code, ∃ d ∈ x, 4 ≤ d :=
+  translateComplete_rejects t ht code hl
+
+/-- `CodonTable(dict, starts)` refuses start codons that are not 3 letters long and an empty list of
+start codons with a `ValueError`. -/
+theorem C03_table_rejects (nuc prot : List Nat) (dict : List (List Nat × Nat)) (starts : List (List Nat)) :
+    ((∃ s ∈ starts, s.length ≠ 3) → codonTableNew nuc prot dict starts = .error .valueError) ∧
+    (starts = [] → codonTableNew nuc prot dict starts = .error .valueError) :=
+  codonTableNew_rejects nuc prot dict starts
 
 /-- **ORF exactness** (`translate(complete=False)`, any `met_start`): for a 64-entry table and an
 unambiguous code sequence the call succeeds and reports exactly the ORFs at the positions
@@ -584,6 +646,11 @@ example : ((CodonTable.mk (List.replicate 64 8) [14]).withMappings [65, 67, 71, 
 example : ((Seq.mk 0 [65, 67] [0, 1, 1]).asType (Seq.mk 0 [65, 67, 71] [2])).bind Seq.symbols = .ok [65, 67, 67] ∧
     (Seq.mk 0 [65, 67, 71] [2]).asType (Seq.mk 0 [65, 67] []) = .error .alphabetError := by decide
 example : ((Seq.mk 0 [65, 67] [0]).setSymbols [67, 67, 65]).bind Seq.symbols = .ok [67, 67, 65] := by decide
+example : translateComplete (CodonTable.mk (List.replicate 64 8) [14]) [0, 0, 4] = .error .alphabetError ∧
+    translateComplete (CodonTable.mk (List.replicate 64 8) [14]) [0, 1, 0] = .ok [8] := by decide
+example : ((Seq.mk 0 [65, 67] [0, 1]).add (Seq.mk 0 [65, 67, 71] [2])).bind Seq.symbols = .ok [65, 67, 71] ∧
+    (Seq.mk 0 [65, 67] [0]).add (Seq.mk 0 [67, 65] [0]) = .error .valueError := by decide
+example : ((Seq.mk 0 [65, 67] [0, 1, 0, 1]).setSlice (some 1) none [67]).bind Seq.symbols = .ok [65, 67, 67, 67] := by decide
 example : numberToCodon 53 = [3, 1, 1] ∧ codonNumber [3, 1, 1] = some 53 := by decide
 example : complementCodes Gen.C03.nucAmb Gen.C03.complDict [0, 4, 14] = .ok [3, 5, 14] := by decide +kernel
 
